@@ -343,6 +343,8 @@ pub fn phase(
         let child = std::process::Command::new(&bin)
             .arg(&corpus)
             .arg(format!("-runs={}", runs))
+            // a campaign budget, not a verdict: whichever of the two bounds comes first ends the job normally
+            .arg(format!("-max_total_time={}", std::env::var("VERIF_FUZZ_SECONDS").ok().and_then(|s| s.parse::<u64>().ok()).unwrap_or(420)))
             .arg(format!("-seed={}", s))
             .arg("-len_control=0")
             .arg(format!("-max_len={}", max_len))
@@ -534,6 +536,7 @@ pub fn phase(
         "mode": if raw { "raw" } else { "tape" },
         "jobs": jobs,
         "runs_per_job": runs,
+        "seconds_per_job_at_most": std::env::var("VERIF_FUZZ_SECONDS").ok().and_then(|s| s.parse::<u64>().ok()).unwrap_or(420),
         "seed_corpus": nseeds,
         "executions": execs,
         "executed_units_reported_by_libfuzzer": executed_units,
